@@ -494,6 +494,12 @@ class CfgWorld:
                 D.append({'target': 'claude_code', 'path': self.claude_cmds + '/' + fn, 'bytes': b})
         return D
     # ---- edits
+    def add_prompt(self):
+        k = len([m for m in self.modules if m['id'].startswith('prompt:n')])
+        self.opts['write_user_prompts'] = True
+        self.modules.append({'id': 'prompt:n%d' % k, 'type': 'prompt', 'dir': 'modules/prompts/n%d' % k,
+                             'files': {'n%d.md' % k: b'new prompt %d\n' % k}, 'targets': [], 'enabled': True})
+        return 'add_prompt'
     def edit_config(self):
         rng = self.rng
         k = rng.random()
@@ -633,7 +639,7 @@ def snapshots_count(sb):
     d = os.path.join(sb.aphome, 'state', 'snapshots')
     return len([x for x in os.listdir(d) if x.endswith('.json')]) if os.path.isdir(d) else 0
 
-def oracle_step(props, before, after, D, roots, flt, adopt, entry, plan, code, ids, home_prefix_strip, latest_managed):
+def oracle_step(props, before, after, D, roots, flt, adopt, entry, plan, code, ids, home_prefix_strip, latest_managed, D_all=None, R_all=None):
     """property predicates for one deploy step, from the observed traces only.
     before/after: relpath->bytes (relative to sb.home); D/roots with paths relative likewise."""
     bad = []
@@ -669,6 +675,13 @@ def oracle_step(props, before, after, D, roots, flt, adopt, entry, plan, code, i
             own_root = any(p.startswith(r['root'] + '/') for r in roots)
             if not own_root:
                 bad.append(('C04', 'with --target %s a path outside the selected target roots changed: %s' % (flt, p)))
+            if D_all is not None:
+                others = {t for t, q in accepted_entries(before, [r for r in R_all if r['target'] != flt], ids) if q == p}
+                others |= {d['target'] for d in D_all if d['path'] == p and d['target'] != flt}
+                desired_elsewhere = {d['target'] for d in D_all if d['path'] == p and d['target'] != flt}
+                mine = any(k[1] == p for k in dkeys) or (any(q == p for _, q in recorded) and not desired_elsewhere)
+                if others and not mine:
+                    bad.append(('C04', 'with --target %s a file belonging to target %s was changed or removed: %s' % (flt, sorted(others), p)))
     # unmanaged collision must refuse the whole deploy (when a confirmed entry reached the adopt gate)
     collide = [d for k, d in dkeys.items() if d['path'] in before and before[d['path']] != d['bytes'] and k not in recorded]
     confirmed_or_interactive = STYLE[entry][1] or STYLE[entry][0] == 2
@@ -740,14 +753,16 @@ def latest_managed_of(sb, base):
         return [(f['target'], f['path'][len(base):]) for f in v['managed_files']]
     return [(c['target'], c['path'][len(base):]) for c in v['changes'] if c['op'] in ('create', 'update') and not is_manifest_name(os.path.basename(c['path']))]
 
-def run_cli_stream(ctx, nhist, depth, props, stream='cli_deploy', idempotence=False):
+def run_cli_stream(ctx, nhist, depth, props, stream='cli_deploy', idempotence=False, script=None, setup=None):
     rng = ctx.rng
     cases = []
     for h in range(nhist):
         sb = Sandbox(ctx.prop.lower() + 'h'); sb.git_init_project()
         try:
-            cw = CfgWorld(sb, rng); cw.write()
-            for _ in range(rng.randrange(0, 3)):
+            cw = CfgWorld(sb, rng)
+            if setup: setup(cw, rng)
+            cw.write()
+            for _ in range(rng.randrange(0, 3) if script is None else 0):
                 user_edit(rng, cw)
             ids = Ids(); base = sb.root
             initial = world_tree(sb)
@@ -759,6 +774,11 @@ def run_cli_stream(ctx, nhist, depth, props, stream='cli_deploy', idempotence=Fa
                     tags = ['repeat']; pending_repeat = False
                     # same filter / same config, confirmed json entry: must be a no-op
                     entry = 'cli_json'; adopt = last[1]; flt = last[2]
+                elif script is not None:
+                    r_ = script(st, cw, sb, rng)
+                    if r_ is None:
+                        break
+                    tags, entry, adopt, flt = r_
                 else:
                     tags = []
                     if st > 0 and rng.random() < 0.6:
@@ -792,7 +812,8 @@ def run_cli_stream(ctx, nhist, depth, props, stream='cli_deploy', idempotence=Fa
                     planned = sorted((c['target'], c['op'], c.get('update_kind'), c['path'], c.get('before_sha256'), c.get('after_sha256')) for c in plan)
                     if echoed != planned:
                         ctx.violation('deploy echoed a change list different from plan --json on the same state', rec)
-                for prop, what in oracle_step(props, before, after, D, R, flt, adopt, entry, plan, code, ids, base, lm):
+                for prop, what in oracle_step(props, before, after, D, R, flt, adopt, entry, plan, code, ids, base, lm,
+                                              D_all=relD(cw.desired(None), base), R_all=relR(cw.roots(None), base)):
                     ctx.violation(what, rec)
                 if tags == ['repeat'] and 'C05' in props:
                     if code != 1 or before != after or snapshots_count(sb) != nsnap:
@@ -821,7 +842,7 @@ def run_cli_stream(ctx, nhist, depth, props, stream='cli_deploy', idempotence=Fa
                                 ctx.violation('manifest of %s does not list exactly the root\'s desired files with true hashes' % r['root'], rec)
                         elif mine and mp not in after:
                             ctx.violation('root %s holds desired files but has no manifest after a successful deploy' % r['root'], rec)
-                    if idempotence and rng.random() < 0.7:
+                    if idempotence and (script is not None or rng.random() < 0.7):
                         pending_repeat = True; last = (entry, adopt, flt)
                 stn, conf = STYLE[entry]
                 steps.append('(HEdit %s)' % c_edits(prev, before, ids))
@@ -872,7 +893,7 @@ class HistState:
         self.owned = {}        # path -> target for files agentpack wrote and has not deleted
         self.events = []       # (ordinal or None, kind)
 
-def run_hist_stream(ctx, nhist, depth, props, weights, stream='full_hist', tamper=False):
+def run_hist_stream(ctx, nhist, depth, props, weights, stream='full_hist', tamper=False, kinds_seq=None, simple=False):
     rng = ctx.rng
     cases = []
     kinds = [k for k, wgt in weights.items() for _ in range(wgt)]
@@ -888,9 +909,12 @@ def run_hist_stream(ctx, nhist, depth, props, weights, stream='full_hist', tampe
                 user_edit(rng, cw, manifests=tamper)
             initial = world_tree(sb); prev = initial
             steps = []; recs = []; hs = HistState(); burst = 0
-            for st in range(depth):
+            seq = kinds_seq(rng) if kinds_seq else None
+            for st in range(len(seq) if seq else depth):
                 kind = rng.choice(kinds) if st > 0 else 'deploy'
-                if burst > 0 and st > 0:
+                if seq:
+                    kind = seq[st]
+                elif burst > 0 and st > 0:
                     kind = 'rollback'; burst -= 1
                 elif kind == 'rollback' and rng.random() < 0.5:
                     burst = rng.randrange(1, 3)      # rollback bursts: redo / sibling rollbacks in a row
@@ -899,9 +923,11 @@ def run_hist_stream(ctx, nhist, depth, props, weights, stream='full_hist', tampe
                     kind = 'deploy'
                 tags = ['op:' + kind]
                 if kind == 'deploy':
-                    if st > 0 and rng.random() < 0.6:
+                    if st > 0 and simple:
+                        tags.append('cfg:' + (cw.add_prompt() if rng.random() < 0.7 else cw.edit_config())); cw.write()
+                    elif st > 0 and rng.random() < 0.6:
                         tags.append('cfg:' + cw.edit_config()); cw.write()
-                    if rng.random() < 0.35:
+                    if rng.random() < 0.35 and not simple:
                         tags.append('user:' + user_edit(rng, cw, manifests=tamper))
                 elif rng.random() < 0.3:
                     tags.append('user:' + user_edit(rng, cw, manifests=tamper))
@@ -916,6 +942,8 @@ def run_hist_stream(ctx, nhist, depth, props, weights, stream='full_hist', tampe
                     flt = rng.choice([None, None, None, 'codex'] + (['claude_code'] if cw.claude else []) + (['zed'] if cw.zed else []))
                     adopt = rng.random() < 0.4
                     entry = rng.choice(['cli_json', 'cli_json', 'cli_human_yes', 'mcp', 'tui'])
+                    if simple:
+                        flt = None; adopt = False
                     lm = latest_managed_of(sb, base)
                     D = relD(cw.desired(flt), base); R = relR(cw.roots(flt), base)
                     plan, code, extra = run_deploy_step(sb, cw, entry, adopt, flt)
@@ -929,7 +957,8 @@ def run_hist_stream(ctx, nhist, depth, props, weights, stream='full_hist', tampe
                     for c in plan:
                         c['path'] = norm_rel(c['path'][len(base):]) if c['path'].startswith(base) else c['path']
                     rec['plan'] = [(c['target'], c['op'], c.get('update_kind'), c['path']) for c in plan]
-                    for prop, what in oracle_step(props, before, after, D, R, flt, adopt, entry, plan, code, ids, base, lm):
+                    for prop, what in oracle_step(props, before, after, D, R, flt, adopt, entry, plan, code, ids, base, lm,
+                                              D_all=relD(cw.desired(None), base), R_all=relR(cw.roots(None), base)):
                         ctx.violation(what, rec)
                     stn, conf = STYLE[entry]
                     uni = hist_universe([before, after], [D], [R])
@@ -990,7 +1019,10 @@ def run_hist_stream(ctx, nhist, depth, props, weights, stream='full_hist', tampe
                     ctx.count(stream, key=('bootstrap', len(plan)), nontrivial=len(plan) > 0, tags=tags)
                 elif kind == 'rollback':
                     choice = rng.random()
-                    if choice < 0.8:
+                    if simple:
+                        cands = [i for i, sn in enumerate(hs.snaps) if sn['kind'] == 'deploy'] or [0]
+                        ordn = rng.choice(cands); sid = sids[ordn]
+                    elif choice < 0.8:
                         ordn = rng.randrange(len(sids)); sid = sids[ordn]
                     else:
                         ordn = len(sids) + 3; sid = '12345'
@@ -1156,3 +1188,70 @@ def hs_manifest_tampered(hs, rec):
     if any(tg.startswith('user:manifest') for tg in rec.get('tags', [])):
         hs.tamper_seen = True; t = True
     return t
+
+
+# ---- directed scripts for run_cli_stream (scenarios the property text names explicitly) ----
+
+CONFIRMED_ENTRIES = ['cli_json', 'cli_human_yes', 'cli_human_prompt_y', 'mcp', 'tui']
+
+def _damage_manifest(rng, r):
+    pref = r['root'] + '/' + mf_name(r['target'])
+    what = rng.choice(['delete', 'garbage', 'badversion', 'foreign'])
+    if what == 'delete':
+        if os.path.exists(pref): os.remove(pref)
+    elif what == 'garbage': world.write(pref, b'{ nope')
+    elif what == 'badversion': world.write(pref, manifest_bytes(r['target'], [], sv=999))
+    else: world.write(pref, manifest_bytes('other-tool', []))
+    return what
+
+def script_partial_manifest(st, cw, sb, rng):
+    """a partly managed world: deploy over several roots, one root loses its manifest, the user replaces a
+    deployed file of that root; the next deploy without --adopt must refuse as a whole"""
+    if st == 0:
+        return ['script:first'], 'cli_json', True, None
+    if st == 1:
+        roots = [r for r in cw.roots(None) if any(best_root_py(cw.roots(None), d) == r['root'] and d['target'] == r['target'] for d in cw.desired(None))]
+        if len(roots) < 1:
+            return None
+        r = rng.choice(roots)
+        what = _damage_manifest(rng, r)
+        mine = [d for d in cw.desired(None) if best_root_py(cw.roots(None), d) == r['root'] and d['target'] == r['target']]
+        d = rng.choice(mine)
+        world.write(d['path'], b'the user took this file over\n')
+        if rng.random() < 0.5:
+            cw.edit_config(); cw.write()
+        return ['script:lost_manifest:' + what, 'script:user_takeover'], rng.choice(CONFIRMED_ENTRIES), False, None
+    return None
+
+def script_lost_manifest_idempotence(st, cw, sb, rng):
+    """deploy; a used root loses its manifest while its files stay identical; deploy (must restore the manifest);
+    the repeat must be a no-op"""
+    if st == 0:
+        return ['script:first'], 'cli_json', True, None
+    if st == 1:
+        roots = [r for r in cw.roots(None) if any(best_root_py(cw.roots(None), d) == r['root'] and d['target'] == r['target'] for d in cw.desired(None))]
+        if not roots:
+            return None
+        what = _damage_manifest(rng, rng.choice(roots))
+        return ['script:lost_manifest:' + what], 'cli_json', False, None
+    return None
+
+
+def setup_shared_root(cw, rng):
+    """codex (scope both, AGENTS.md in the project root) and zed (.rules in the project root) share one root directory"""
+    cw.zed = True; cw.repo_agents = True
+    cw.modules = [m for m in cw.modules if m['type'] != 'instructions']
+    cw.modules.append({'id': 'instructions:base', 'type': 'instructions', 'dir': 'modules/instructions/base',
+                       'files': {'AGENTS.md': b'# shared rules\n'}, 'targets': [], 'enabled': True})
+
+def script_shared_root_filter(st, cw, sb, rng):
+    """deploy everything, then deploy with --target codex / --target zed while the other target has files in the same directory"""
+    if st == 0:
+        return ['script:all'], 'cli_json', True, None
+    if st in (1, 2, 3):
+        if rng.random() < 0.5:
+            m = next(m for m in cw.modules if m['type'] == 'instructions')
+            m['files']['AGENTS.md'] = rng.choice([b'# shared rules v2\n', b'# other\n', b'# shared rules\n']); cw.write()
+        flt = rng.choice(['codex', 'zed', 'codex'] + (['claude_code'] if cw.claude else []))
+        return ['script:filtered'], rng.choice(CONFIRMED_ENTRIES), rng.random() < 0.3, flt
+    return None
